@@ -246,6 +246,15 @@ type BoundedSpec struct {
 }
 
 var boundedSpecs = map[string][]BoundedSpec{
+	"C12": {{Name: "check/lemma/virtual-quote", File: "c12_virtualquote_test.go.txt", Test: "TestZZBoundedVirtualQuote",
+		What:  "second sentence of C12 (runs shifted by one byte, outside mode R): reading x inside a quote gives the same folded tokens and fingerprint as reading quote+x as-is, verdicts agree unless the fingerprint is sos or s&s: all non-empty x of up to <bound> symbols from a 14-symbol alphabet x 2 quotes x 2 dialects on the real code",
+		Quick: 5, Thorough: 6}},
+	"C13": {{Name: "isXSS/lemma/embedding-and-prefix", File: "c13_embedding_test.go.txt", Test: "TestZZBoundedEmbedding",
+		What:  "clauses (b) and (c) of C13 (runs of different length, outside mode R): verdict(x, attribute context) = verdict(harmless tag + x, data) for the four embeddings, and a '<'-free prefix never changes the data verdict: all concatenations of up to <bound> of 20 fragments x 4 embeddings x 10 prefixes on the real isXSS",
+		Quick: 4, Thorough: 5}},
+	"C11": {{Name: "isXSS/lemma/nul-inside-names", File: "c11_nulnames_test.go.txt", Test: "TestZZBoundedNulInNames",
+		What:  "second half of C11 (runs of different length, outside mode R): one or two NUL bytes inserted strictly inside a tag-name or attribute-name token never change that context's verdict: all concatenations of up to <bound> of 20 fragments x 5 contexts x every inner position on the real isXSS",
+		Quick: 4, Thorough: 5}},
 	"C07": {{Name: "next/lemma/token-stream-pin", File: "c07_htmlpin_test.go.txt", Test: "TestZZBoundedHTMLPin",
 		What:  "token stream (type, offset, length) of the five start contexts and the five verdicts, for every concatenation of up to <bound> fragments from a 28-piece vocabulary of HTML-significant text, equal the values pinned from the pinned tree in /verif/baseline/htmlpin.gz - a regression pin, not a specification",
 		Quick: 4, Thorough: 5}},
